@@ -194,3 +194,49 @@ def run_miri_threads(stage, prop, tier, seed, bins, run_dir, jobs, log):
             inconclusive.append(f"miri-schedules {c} seed {s}: exit {rc}: {err[-400:]}")
     frags = list(by_cfg.values())
     return frags, inconclusive
+
+
+def run_tsan_threads(stage, prop, tier, seed, bins, run_dir, jobs, log):
+    """C15 (thorough): the thread programs under ThreadSanitizer; any data-race report is a violation."""
+    import glob, hashlib
+    frags, inconclusive = [], []
+    if "T-tsan" not in bins or "N-auto" not in bins:
+        return frags, inconclusive
+    mv = bins["N-auto"]["mv"]
+    exe = bins["T-tsan"]["mvexec"]
+    pdir = os.path.join(run_dir, "tsan-programs")
+    subprocess.run([mv, "gen-threads", "--prop", prop, "--seed", str(seed + 77), "--out", pdir, str(stage["programs"][tier])], check=True)
+    progs = sorted(glob.glob(os.path.join(pdir, "prog-*.txt")))
+    reps = stage["repeats"][tier]
+    tasks = [(p, r, lvl) for p in progs for r in range(reps) for lvl in ("0", "1", "2")]
+
+    def work(t):
+        prog, r, lvl = t
+        try:
+            p = subprocess.run([exe, "threads", prog, lvl], stdout=subprocess.PIPE, stderr=subprocess.PIPE, timeout=300,
+                               env=dict(os.environ, TSAN_OPTIONS="halt_on_error=0 exitcode=66"))
+            return t, p.returncode, p.stdout.decode("utf-8", "replace"), p.stderr.decode("utf-8", "replace")
+        except subprocess.TimeoutExpired:
+            return t, -9, "", "watchdog"
+
+    with ThreadPoolExecutor(max_workers=jobs) as ex:
+        results = list(ex.map(work, tasks))
+    f = {"property": prop, "stage": "tsan-threads", "config": "T-tsan", "shard": "0/1", "seed": seed, "evaluations": 0, "nontrivial_enum": 0,
+         "nontrivial_hashed": 0, "classes": {}, "required_classes": [], "samples": [], "violations": [], "notes": [], "subspaces": [], "extra": {},
+         "_wall": 0.0, "_hashes": "/nonexistent"}
+    for (prog, r, lvl), rc, out, err in results:
+        text = open(prog).read()
+        if "ThreadSanitizer: data race" in err or (rc == 1 and "MISMATCH" in out):
+            what = ("ThreadSanitizer: data race\n" + err[-1500:]) if "ThreadSanitizer" in err else out.strip()
+            f["violations"].append({"property": prop, "kind": "tsan-threads", "config": "T-tsan", "impl": "dispatch/finder", "op": "threads", "program": text,
+                                    "what": what, "expected": "no data race, sequential answers", "observed": what[:300], "haystack_len": len(text),
+                                    "level": int(lvl), "signature": f"{prop}|T-tsan|{hashlib.sha1(text.encode()).hexdigest()[:16]}|{lvl}"})
+        elif rc == 0:
+            f["evaluations"] += 1
+            f["nontrivial_enum"] += 1
+            if len(f["samples"]) < 2:
+                f["samples"].append({"stage": "tsan-threads", "program": text.splitlines()[:8], "forced_level": lvl})
+        else:
+            inconclusive.append(f"tsan-threads: exit {rc}: {err[-300:]}")
+    f["classes"]["process runs under ThreadSanitizer without a report"] = f["evaluations"]
+    return [f], inconclusive
